@@ -412,6 +412,7 @@ func ruleR3UnifySeed(c *Ctx) []Obligation {
 		}
 	}
 	out = append(out, r4usPeerObligations(c, e)...)
+	out = append(out, r5sibNeverResultObligations(c, e)...)
 	sort.SliceStable(out, func(i, j int) bool { return out[i].Key < out[j].Key })
 	return out
 }
